@@ -111,17 +111,14 @@ def flattenEvent(event: LogEvent) -> None:
         else:  # Above: if conversion is not "r" or "a", it's "s"
             conversionFunction = str
 
-        if formatSpec:
-            # Apply the format specification now, as formatting the original
-            # event would; a nested replacement field is expanded first.
-            if "{" in formatSpec:
-                formatSpec = aFormatter.vformat(formatSpec, (), CallMapping(event))
-            if explicitConversion is None:
-                flattenedValue = format(fieldValue, formatSpec)
-            else:
-                flattenedValue = format(conversionFunction(fieldValue), formatSpec)
+        # Apply the format specification now, as formatting the original
+        # event would; a nested replacement field is expanded first.
+        if "{" in formatSpec:
+            formatSpec = aFormatter.vformat(formatSpec, (), CallMapping(event))
+        if explicitConversion is None:
+            flattenedValue = format(fieldValue, formatSpec)
         else:
-            flattenedValue = conversionFunction(fieldValue)
+            flattenedValue = format(conversionFunction(fieldValue), formatSpec)
         fields[flattenedKey] = flattenedValue
         fields[structuredKey] = fieldValue
 
